@@ -478,7 +478,6 @@ def annotate(
                     ).format(path=path, new_path=new_path)
                 )
             path = Path(new_path)
-            path.touch()
         result += add_header_to_file(
             path=path,
             reuse_info=reuse_info,
